@@ -357,6 +357,16 @@ let handle (toks : string list) : string =
            let s = { l_target = nint t; l_cwd = (match cw.[0] with 'm' -> RMissing | 'd' -> RDir | _ -> RFile (num cw)) } in
            (match link_event m s (dent dinit) with EvSkip -> "skip" | EvCreate -> "create" | EvUpdate -> "update" | EvError -> "error")
        | _ -> failwith "le step")
+  | ["LD"; mode; dinit; st] ->
+      (* what a DRY run announces for one symlink entry (same encoding as LE) *)
+      let m = (match mode with "preserve" -> LPreserve | "follow" -> LFollow | _ -> LSkip) in
+      let num t = n_of_int (int_of_string (String.sub t 1 (String.length t - 1))) in
+      let dent t = (match t.[0] with 'a' -> DAbsent | 'l' -> DLink (num t) | 'f' -> DFile (num t) | _ -> DDir) in
+      (match String.split_on_char ':' st with
+       | [t; cw] ->
+           let s = { l_target = nint t; l_cwd = (match cw.[0] with 'm' -> RMissing | 'd' -> RDir | _ -> RFile (num cw)) } in
+           (match dry_link_event m s (dent dinit) with EvSkip -> "skip" | EvCreate -> "create" | EvUpdate -> "update" | EvError -> "error")
+       | _ -> failwith "ld step")
   | ["TN"; name] ->
       let n = List.map n_of_int (raw_of_hex name) in
       let out = temp_name n in
